@@ -284,7 +284,7 @@ func (t *Thread) end(args []Value, err error, exception interface{}) {
 		// CallContext does).
 		t.closeStack.truncate(0)
 	} else {
-		err = t.cleanupCloseStack(nil, 0, err) // TODO: not nil
+		err, exception = t.closePendingAtEnd(err)
 	}
 	t.mux.Lock()
 	caller.mux.Lock()
@@ -304,6 +304,23 @@ func (t *Thread) end(args []Value, err error, exception interface{}) {
 	// values are sent the caller's goroutine runs and owns the runtime.
 	t.ReleaseBytes(2 << 10) // The goroutine will terminate after this
 	caller.sendResumeValues(args, err, exception)
+}
+
+// closePendingAtEnd closes the pending to-be-closed variables of an ending
+// thread.  The handlers run outside the recover of the thread's goroutine, so
+// a context termination occurring in one of them is caught here and handed to
+// the caller like one that occurred in the body of the coroutine.
+func (t *Thread) closePendingAtEnd(err error) (closeErr error, exception interface{}) {
+	defer func() {
+		if r := recover(); r != nil {
+			if _, ok := r.(ContextTerminationError); !ok {
+				panic(r)
+			}
+			t.closeStack.truncate(0)
+			closeErr, exception = err, r
+		}
+	}()
+	return t.cleanupCloseStack(nil, 0, err), nil // TODO: not nil
 }
 
 func (t *Thread) call(c Callable, args []Value, next Cont) error {
